@@ -25,10 +25,23 @@ class ObResult:
         return d
 
 
+def _ematch(hyps, g, axioms, timeout_ms):
+    se = z3.Solver()
+    se.set("timeout", min(timeout_ms, 4000))
+    se.set("smt.mbqi", False)
+    se.set("smt.auto_config", False)
+    for a_ in axioms:
+        se.add(a_)
+    se.add(*hyps)
+    se.add(z3.Not(g))
+    return se.check() == z3.unsat
+
+
 def solve(hyps, goal, axioms=(), timeout_ms=10000, want_model=True):
-    """returns (status, backend, secs, model_text, model).  status: proved | refuted | unknown"""
-    from .values import has_quant
-    from .inst import pointwise_check
+    """returns (status, backend, secs, model_text, model).  status: proved | refuted | unknown.
+    The goal is skolemised and split into conjuncts; each conjunct goes through: E-matching (MBQI off),
+    pointwise instantiation, finite-universe refutation, full z3, cvc5."""
+    from .inst import pointwise_check, skolemize_goal
     t0 = time.time()
     hyps = list(hyps)
     if mentions_decl(hyps + [goal], "str_lt"):
@@ -36,39 +49,55 @@ def solve(hyps, goal, axioms=(), timeout_ms=10000, want_model=True):
     qf = [h for h in hyps if not has_quant(h)]
     qh = [h for h in hyps if has_quant(h)]
     quantified = bool(qh) or has_quant(goal)
-    if quantified:
-        for rounds in (1, 2):
+    backends = set()
+    goals = skolemize_goal(goal) if quantified else [goal]
+    for g in goals:
+        done = False
+        if quantified:
             try:
-                r = pointwise_check(qf, qh, goal, axioms, timeout_ms, rounds=rounds)
+                if _ematch(hyps, g, axioms, timeout_ms):
+                    backends.add("ematching")
+                    continue
             except z3.Z3Exception:
-                r = "unknown"
-            if r == "unsat":
-                return "proved", f"z3-{z3.get_version_string()}-pointwise{rounds}", time.time() - t0, None, None
-        from .finite import finite_refute
-        fr = finite_refute(hyps, goal, axioms, timeout_ms=min(timeout_ms, 5000))
-        if fr is not None:
-            mt, m, ctx, n = fr
-            return "refuted", f"z3-{z3.get_version_string()}-finite-universe{n}", time.time() - t0, mt, m
-    s = z3.Solver()
-    s.set("timeout", timeout_ms)
-    for a in axioms:
-        s.add(a)
-    for h in hyps:
-        s.add(h)
-    s.add(z3.Not(goal))
-    r = s.check()
-    dt = time.time() - t0
-    if r == z3.unsat:
-        return "proved", "z3-" + z3.get_version_string(), dt, None, None
-    if r == z3.sat:
-        m = s.model()
-        return "refuted", "z3-" + z3.get_version_string(), dt, (model_text(m) if want_model else None), m
-    # second opinion: cvc5 on the SMT-LIB text
-    smt = s.to_smt2()
-    st2, secs2 = cvc5_check(smt, timeout_ms)
-    if st2 == "unsat":
-        return "proved", "cvc5", dt + secs2, None, None
-    return "unknown", "z3+cvc5", time.time() - t0, s.reason_unknown(), None
+                pass
+            for rounds in (1, 2):
+                try:
+                    r = pointwise_check(qf, qh, g, axioms, timeout_ms, rounds=rounds)
+                except z3.Z3Exception:
+                    r = "unknown"
+                if r == "unsat":
+                    backends.add(f"pointwise{rounds}")
+                    done = True
+                    break
+            if done:
+                continue
+            from .finite import finite_refute
+            fr = finite_refute(hyps, g, axioms, timeout_ms=min(timeout_ms, 5000))
+            if fr is not None:
+                mt, m, ctx, n = fr
+                return "refuted", f"z3-{z3.get_version_string()}-finite-universe{n}", time.time() - t0, mt, m
+        s = z3.Solver()
+        s.set("timeout", timeout_ms)
+        for a in axioms:
+            s.add(a)
+        for h in hyps:
+            s.add(h)
+        s.add(z3.Not(g))
+        r = s.check()
+        if r == z3.unsat:
+            backends.add("full")
+            continue
+        if r == z3.sat:
+            m = s.model()
+            return "refuted", "z3-" + z3.get_version_string(), time.time() - t0, (model_text(m) if want_model else None), m
+        # second opinion: cvc5 on the SMT-LIB text
+        st2, secs2 = cvc5_check(s.to_smt2(), timeout_ms)
+        if st2 == "unsat":
+            backends.add("cvc5")
+            continue
+        return "unknown", "z3+cvc5", time.time() - t0, s.reason_unknown(), None
+    be = "z3-" + z3.get_version_string() + ("-" + "+".join(sorted(backends)) if backends else "")
+    return "proved", be, time.time() - t0, None, None
 
 
 def cvc5_check(smt, timeout_ms):
